@@ -98,6 +98,55 @@ func (c *Ctx) SameStore(prop string) {
 			}
 		}
 	}
+	optArg := 0
+	if len(opts) == 0 {
+		// value-typed options: `type pathOption string; func (v pathOption) apply(p *parameters) { p.field = string(v) }` and
+		// `func WithPath(path string) Option { return pathOption(path) }`
+		var optType types.Type
+		for _, fn := range c.P.ModuleFuncs() {
+			if prog.PkgPathOf(fn) != pkgPath || fn.Signature.Recv() == nil || fn.Blocks == nil {
+				continue
+			}
+			for _, b := range fn.Blocks {
+				for _, ins := range b.Instrs {
+					st, ok := ins.(*ssa.Store)
+					if !ok {
+						continue
+					}
+					fa, ok := st.Addr.(*ssa.FieldAddr)
+					if !ok || fieldNameOf(fa) != field || !types.Identical(derefT(fa.X.Type()), derefT(ownerT)) {
+						continue
+					}
+					if an.StripConv(stripConvert(st.Val)) == ssa.Value(fn.Params[0]) {
+						optType = fn.Params[0].Type()
+					}
+				}
+			}
+		}
+		if optType != nil {
+			for _, fn := range c.P.ModuleFuncs() {
+				if prog.PkgPathOf(fn) != pkgPath || fn.Blocks == nil || fn.Signature.Recv() != nil {
+					continue
+				}
+				for _, ret := range an.Returns(fn) {
+					if len(ret.Results) != 1 {
+						continue
+					}
+					mi, ok := an.Result(ret, 0).(*ssa.MakeInterface)
+					if !ok || !types.Identical(mi.X.Type(), optType) {
+						continue
+					}
+					v := stripConvert(mi.X)
+					for k, q := range fn.Params {
+						if v == ssa.Value(q) {
+							opts = append(opts, fn)
+							optArg = k
+						}
+					}
+				}
+			}
+		}
+	}
 	if len(opts) != 1 {
 		c.R.Unknown(rule, pkgPath, "-", "expected one option function setting the store directory")
 		return
@@ -106,10 +155,10 @@ func (c *Ctx) SameStore(prop string) {
 	// 4. all production calls of the option function agree
 	terms := map[string][]ssa.CallInstruction{}
 	for _, ci := range c.staticCallers()[opt] {
-		if prog.IsTestish(prog.PkgPathOf(ci.Parent())) || len(ci.Common().Args) == 0 {
+		if prog.IsTestish(prog.PkgPathOf(ci.Parent())) || len(ci.Common().Args) <= optArg {
 			continue
 		}
-		t := an.Term(ci.Common().Args[0])
+		t := an.Term(ci.Common().Args[optArg])
 		terms[t] = append(terms[t], ci)
 	}
 	n := 0
@@ -137,4 +186,17 @@ func derefT(t types.Type) types.Type {
 		return p.Elem()
 	}
 	return t
+}
+
+func stripConvert(v ssa.Value) ssa.Value {
+	for {
+		switch x := v.(type) {
+		case *ssa.Convert:
+			v = x.X
+		case *ssa.ChangeType:
+			v = x.X
+		default:
+			return v
+		}
+	}
 }
